@@ -136,6 +136,38 @@ def row_operation_width(ck, F, rule, fn, floor=3):
         full = l_[2] == num(0) and not l_[4] and (l_[3] == NROWS_ or (fn.endswith("row_echelon_form") and l_[3] == NCOLS))
         ck.inst(rule, "%s:pivot-range#%d" % (fn.rsplit("::", 1)[-1], i_ + 1), full, b.span,
                 "pivot loop over %r..%r%s ; required 0..number of rows (echelon form: or 0..number of columns)" % (l_[2], l_[3], "=" if l_[4] else ""))
+    # ... and when they are walked by a `while` over a column cursor and a row cursor, the loop continues exactly while a column *and* a row
+    # are left (evaluated on a grid of cursor positions and matrix sizes)
+    whiles = []
+    for kind, e, idx in ops:
+        if e.loops and e.loops[0][0] == "while" and len(e.loops[0]) == 3 and e.loops[0] not in whiles:
+            whiles.append(e.loops[0])
+    if whiles:
+        from .transformer import Grid
+        from .symx import NotEvaluable
+        from itertools import product as _prod
+        for i_, l_ in enumerate(whiles):
+            c_ = l_[1]
+            names = sorted({a_[1] for a_ in c_.atoms_deep() if a_[0] == "v" and a_[1].endswith("@loop")}) if isinstance(c_, Poly) else []
+            okw, whyw = False, "loop condition %r" % (c_,)
+            if len(names) == 2:
+                try:
+                    okw = True
+                    for x0, x1, n_, m_ in _prod(range(4), range(4), range(1, 4), range(1, 4)):
+                        g = Grid({names[0]: x0, names[1]: x1}, {"dim": lambda *a_, n_=n_, m_=m_: (n_, m_)})
+                        val = bool(g.value(c_))
+                        # one cursor is compared with the number of columns, the other with the number of rows: both assignments are tried
+                        w1 = (x0 < m_ and x1 < n_)
+                        w2 = (x0 < n_ and x1 < m_)
+                        if not hasattr(okw, "__len__"):
+                            okw = [True, True]
+                        okw[0] = okw[0] and val == w1
+                        okw[1] = okw[1] and val == w2
+                    okw = any(okw) if isinstance(okw, list) else okw
+                except (NotEvaluable, TypeError) as ex:
+                    okw, whyw = False, "loop condition not evaluable: %s" % ex
+            ck.inst(rule, "%s:pivot-range-while#%d" % (fn.rsplit("::", 1)[-1], i_ + 1), bool(okw), b.span,
+                    "the elimination continues exactly while column cursor < number of columns and row cursor < number of rows ; " + whyw[:200])
     # Pivoting: the row where the non-zero element was found is exchanged with the pivot row whenever they differ - the exchange may be
     # skipped for equal rows (a no-op) but must not be conditioned on anything else, in particular not on the rows being equal
     from .symx import canon_cond
